@@ -21,7 +21,7 @@ var c05Pages = []string{
 	// 2 figure with caption and link
 	`<p>alpha beta</p><figure data-zzk="zq9"><img src="f.png" data-zzk="zq9"><figcaption data-zzk="zq9">capt <a href="/c" data-zzk="zq9">link</a><script>var s=1</script></figcaption></figure>`,
 	// 3 data table
-	`<p>alpha beta</p><table data-zzk="zq9"><thead data-zzk="zq9"><tr><th data-zzk="zq9">h1</th><th>h2</th></tr></thead><tbody><tr data-zzk="zq9"><td data-zzk="zq9">c1 <span data-zzk="zq9">s1</span><script>var t=1</script><style>.x{}</style></td><td>c2</td></tr></tbody></table>`,
+	`<p>alpha beta</p><table data-zzk="zq9"><thead data-zzk="zq9"><tr><th data-zzk="zq9">h1</th><th>h2</th></tr></thead><tbody><tr data-zzk="zq9"><td data-zzk="zq9">c1 <span data-zzk="zq9">s1</span><script>var t=1</script><style>.x{}</style></td><td>c2 <svg data-zzk="zq9" viewBox="0 0 1 1"><path data-zzk="zq9" d="M0 0"></path></svg></td></tr></tbody></table>`,
 	// 4 video
 	`<p>alpha beta</p><video src="v.mp4" data-zzk="zq9"><source src="v2.mp4" data-zzk="zq9"><track src="t.vtt" data-zzk="zq9"></video>`,
 	// 5 recognised embed
